@@ -379,6 +379,14 @@ class TripLock:
     def locked(self):
         return self._held
 
+    def __enter__(self):
+        self.acquire()
+        return self
+
+    def __exit__(self, *a):
+        self.release()
+        return False
+
 
 def run(coro_fn, *a, **k):
     return vloop.run(coro_fn, *a, **k)
